@@ -33,11 +33,12 @@ Unpack(s) == [config |-> s.config, hist |-> s.hist, status |-> s.status, ctx |->
 
 ImplStep(pre, step, eng) ==
   LET e0 == IF eng = "pure" THEN "pure" ELSE eng
-      \* the pure API forgets history between calls and forces the status to running
+      \* the pure API forgets history (and output) between calls; done/error snapshots are final
       p0 == IF eng = "pure" /\ step.op = "send"
-            THEN [Unpack(pre) EXCEPT !.hist = [p \in HistOwners |-> {}], !.status = "running", !.output = NONE]
+            THEN [Unpack(pre) EXCEPT !.hist = [p \in HistOwners |-> {}], !.output = NONE]
             ELSE Unpack(pre)
   IN CASE step.op = "start" -> StartStep(p0, step.gv, e0)
+       [] step.op = "send" /\ eng = "pure" /\ pre.status # "running" -> Unpack(pre)
        [] step.op = "send"  -> SendStep(p0, step.ev, step.gv, e0)
        [] step.op = "can"   -> CanStep(p0, step.ev, step.gv)
        [] OTHER -> p0
